@@ -9,6 +9,8 @@ pub mod c01;
 #[cfg(kani)]
 pub mod c17;
 #[cfg(kani)]
+pub mod c16;
+#[cfg(kani)]
 pub mod c08;
 #[cfg(kani)]
 pub mod selftest;
